@@ -256,6 +256,37 @@ impl ImportTracker {
 }
 
 impl<'a> IrEmitter<'a> {
+    /// Make the struct and enum declarations of an imported module known to this emitter (multi-file projects).
+    ///
+    /// Constructing an imported model with a defaulted field omitted, or naming a unit variant of an imported enum
+    /// (`Shape.Dot`), needs the same field / variant tables as for declarations of the file being emitted. Declarations of
+    /// the emitted program itself are registered later by `emit_program` and take precedence.
+    pub fn register_imported_types(&mut self, imported: &IrProgram) {
+        for decl in &imported.declarations {
+            if let IrDeclKind::Struct(s) = &decl.kind {
+                if !s.derives.is_empty() {
+                    self.struct_derives.insert(s.name.clone(), s.derives.clone());
+                }
+                self.struct_field_names
+                    .insert(s.name.clone(), s.fields.iter().map(|f| f.name.clone()).collect());
+                for field in &s.fields {
+                    self.struct_field_types
+                        .insert((s.name.clone(), field.name.clone()), field.ty.clone());
+                    if let Some(default) = &field.default {
+                        self.struct_field_defaults
+                            .insert((s.name.clone(), field.name.clone()), default.clone());
+                    }
+                }
+            }
+            if let IrDeclKind::Enum(e) = &decl.kind {
+                for v in &e.variants {
+                    self.enum_variant_fields
+                        .insert((e.name.clone(), v.name.clone()), v.fields.clone());
+                }
+            }
+        }
+    }
+
     /// Emit a complete IR program to formatted Rust code.
     #[tracing::instrument(skip_all, fields(decl_count = program.declarations.len()))]
     pub fn emit_program(&mut self, program: &IrProgram) -> Result<String, EmitError> {
